@@ -703,6 +703,29 @@ func kindToSender(p *Program, sends map[*types.Func]*serverSend) map[*types.Cons
 			}
 		}
 	}
+	// kinds dispatched through a package-level table: map[monitorKind]func(...)
+	if sp := p.SSAPkgs["server"]; sp != nil {
+		for _, mem := range sp.Members {
+			g, ok := mem.(*ssa.Global)
+			if !ok {
+				continue
+			}
+			for _, e := range p.tableFuncs(g) {
+				if e.key == nil {
+					continue
+				}
+				k := kindConst(e.key)
+				if k == nil {
+					continue
+				}
+				if fo := reachesSender(e.fn); fo != nil {
+					if _, dup := out[k]; !dup {
+						out[k] = fo
+					}
+				}
+			}
+		}
+	}
 	return out
 }
 
